@@ -60,8 +60,8 @@ LEVEL_TEXT = {
             "assignment and evaluateAll the abstract pass; these state conditions hold in every world reached by creating properties, plain observers, fresh "
             "evaluator-driven bindings, assignments and evaluateAll, and in such a network the registration order is a duplicate-free dependency order; hence "
             "after ONE evaluateAll every registered bound property equals its expression recomputed from scratch (no further premise); the same for histories "
-            "that also reset() bound properties and destroy properties nobody reads (PropGrowLazyMore.v), and a reset binding is dead and out of the registry evaluateAll iterates; for EVERY history (any outcome, acting observers): registries hold live bindings only and a dead binding stays dead, so a reset, replaced or destroyed binding is never evaluated again (PropReg.v). PARTIAL: mixed worlds (immediate and evaluator-driven bindings "
-            "together, acting observers, replacement, moves) are covered by the extracted checker "
+            "that also reset() bound properties, destroy properties nobody reads (PropGrowLazyMore.v) and move-construct properties (PropMoveLazy.v), and a reset binding is dead and out of the registry evaluateAll iterates; for EVERY history (any outcome, acting observers): registries hold live bindings only and a dead binding stays dead, so a reset, replaced or destroyed binding is never evaluated again (PropReg.v). PARTIAL: mixed worlds (immediate and evaluator-driven bindings "
+            "together, acting observers, replacement, move assignment) are covered by the extracted checker "
             "check_c06_after_evalall on every evaluateAll of every generated history and by correspondence.", '6/C06'),
     'C07': ("Machine-checked on the executable model: every direct write to a bound property raises ReadOnlyProperty and leaves the world unchanged; reset keeps "
             "value and observers, removes the updater and re-enables the normal write protocol; destroying/replacing a binding touches no property and no "
